@@ -65,10 +65,10 @@ type Panic struct {
 
 type Config struct {
 	Chooser   Chooser
-	Horizon   int           // maximum number of scheduling points of one execution
-	TimeLimit time.Duration // timers with a deadline beyond this virtual time never fire (0 = no limit)
-	Trace     bool          // record every point with its source location
-	StepHook  func()        // called at every scheduling point by the thread that holds the baton
+	Horizon   int                       // maximum number of scheduling points of one execution
+	TimeLimit time.Duration             // timers with a deadline beyond this virtual time never fire (0 = no limit)
+	Trace     bool                      // record every point with its source location
+	StepHook  func()                    // called at every scheduling point by the thread that holds the baton
 	ExecHook  func(thread, kind string) // called when a thread has been scheduled and is about to perform its operation
 	ExitHook  func(name string)
 }
